@@ -24,6 +24,9 @@ ENDIAN = ("any", "little", "big")
 LATTICE_OPTIONS = {"target_endianness", "enable_serialization_asserts", "omit_float_serialization_support"}
 
 RULES = {
+    "R-C14-SHIFT-RANGE": "a shift by a saturated run-time length v (or v - c), v = min(.., K), is evaluated only where the guards on the way "
+                         "to it (?: condition, left operand of && / ||, if) keep the amount inside [0, width of the promoted left operand): "
+                         "a mask hoisted out of its `(v < W) ? .. : ..` is evaluated for v == W as well, which is undefined behaviour",
     "R-C14-F16-SPECIAL": "half-precision unpack: the test that separates infinity / NaN from finite halves includes the boundary "
                          "(>= 0x7C00 on the magnitude bits, == on the masked exponent, or >= 2**16 on the scaled float)",
     "R-C14-SET-BOUND": "every store into a caller-supplied destination buffer (bit copy, memset/memmove, indexed store) made by a "
